@@ -178,7 +178,7 @@ func c10haViol(sig, format string, a ...interface{}) *c10haOutcome {
 }
 
 func c10haNewCore(t *testing.T, phys physical.Backend, ha physical.HABackend, rec *RecState, idx int, lg *c10haLog) *vault.Core {
-	conf := coreConfig(phys, Options{}, rec)
+	conf := coreConfig(phys, Options{AutoSeal: c10haAuto}, rec)
 	conf.BuiltinRegistry = corehelpers.NewMockBuiltinRegistry()
 	conf.NumRollbackWorkers = 10
 	if lg != nil {
@@ -203,8 +203,16 @@ func c10haNewHA(t *testing.T) physical.HABackend {
 	return b.(physical.HABackend)
 }
 
+// c10haAuto: the pair runs with a stored-key (auto-unseal style) seal: the root key is kept in
+// storage wrapped by an external wrapper, nodes unseal themselves from it, there are no shares.
+var c10haAuto bool
+
 // c10haUnseal supplies the shares one by one until the node is unsealed.
 func c10haUnseal(c *vault.Core, shares [][]byte) (bool, error) {
+	if c10haAuto {
+		err := c.UnsealWithStoredKeys(rootCtx())
+		return !c.Sealed(), err
+	}
 	var last error
 	for _, k := range shares {
 		if !c.Sealed() {
@@ -1035,6 +1043,24 @@ func TestVerifC10HA(t *testing.T) {
 	res.Bound("ha_namespace_alphabet", nsAlphabet)
 	if nsDepth > 0 {
 		enumerate(nsAlphabet, nsDepth, ">ns-")
+	}
+
+	// Part A: the same pair with a stored-key (auto-unseal style) seal instead of Shamir
+	// shares: write / encryption-key rotation / root-key rotation / every kind of leadership
+	// change (the rekey operations need shares and are left out).  The node that takes over
+	// follows the upgrade path; a restarted node unseals itself from the stored keys.
+	{
+		autoDepth := 3
+		if vout.Thorough() {
+			autoDepth = 4
+		}
+		c10haAuto = true
+		img = c10haBuildImage(t)
+		autoAlphabet := []string{c10haWrite, c10haRotate, c10haRotRoot, c10haFailover, c10haRestart, c10haStepDown}
+		res.Bound("ha_autoseal_history_depth", autoDepth)
+		res.Bound("ha_autoseal_alphabet", autoAlphabet)
+		enumerate(autoAlphabet, autoDepth, "")
+		c10haAuto = false
 	}
 
 	res.Add("failovers_performed", st.failovers)
